@@ -91,7 +91,11 @@ def candidates(fname, src):
             yield i, "delete statement", re.match(r"^\s*", line).group(0) + "_ = 0"
 
 
+GOARCH_ALL = None
+
+
 def build(root, tmp, goarch=None):
+    goarch = goarch or GOARCH_ALL
     src = open(os.path.join(HARNESS, "go.mod")).read().replace("=> /repo", "=> " + root)
     mf = os.path.join(tmp, "go.mod")
     open(mf, "w").write(src)
@@ -142,6 +146,7 @@ def run_mutant(m):
 
 def main():
     args = sys.argv[1:]
+    global GOARCH_ALL
     j, limit, files, seed = 6, 0, FILES, 1
     while args:
         a = args.pop(0)
@@ -153,6 +158,8 @@ def main():
             files = args.pop(0).split(",")
         elif a == "--seed":
             seed = int(args.pop(0))
+        elif a == "--goarch":
+            GOARCH_ALL = args.pop(0)
     muts = []
     for f in files:
         src = open(os.path.join("/repo", f)).read()
